@@ -222,6 +222,8 @@ type ScriptBody struct {
 	Returned *bool
 	After    int
 	Gate     func(pos int, n int) // called before releasing bytes [pos,pos+n) (C16)
+	OnEOF    func()               // called once when the end of the body is reached (net/http fills in request trailers then)
+	eofDone  bool
 	Lock     *sync.Mutex
 }
 
@@ -243,6 +245,10 @@ func (b *ScriptBody) Read(p []byte) (int, error) {
 	if b.pos >= len(b.Data) {
 		if b.EndErr != nil {
 			return 0, b.EndErr
+		}
+		if b.OnEOF != nil && !b.eofDone {
+			b.eofDone = true
+			b.OnEOF()
 		}
 		return 0, io.EOF
 	}
@@ -267,6 +273,10 @@ func (b *ScriptBody) Read(p []byte) (int, error) {
 	copy(p, b.Data[b.pos:b.pos+n])
 	b.pos += n
 	if b.pos >= len(b.Data) && b.EOFWith && b.EndErr == nil {
+		if b.OnEOF != nil && !b.eofDone {
+			b.eofDone = true
+			b.OnEOF()
+		}
 		return n, io.EOF
 	}
 	return n, nil
